@@ -401,6 +401,11 @@ func (x *Exec) binop(op token.Token, l, r Term, resT, rT types.Type, env *Env, r
 		res = Arith("-", l, r)
 	case token.MUL:
 		res = Arith("*", l, r)
+		if _, lc := bigConst(l); !lc && !x.termMode && res.Sort == SInt {
+			if _, rc := bigConst(r); !rc {
+				res = x.named("mul", wrap(res, resT))
+			}
+		}
 	case token.QUO:
 		if isReal {
 			l, r = coerceNum(l, r)
